@@ -5,7 +5,7 @@ From Names Require Import Model Spec.
 Extraction Language OCaml.
 Extraction "names_model.ml"
   name_cmp comp_cmp name_eqb comp_eqb is_prefix name_bytes name_inner name_from_bytes comp_from_bytes comp_enc
-  name_to_str comp_to_str comp_to_canon name_from_str_f comp_from_str name_hash_input comp_hash_input
+  name_to_str comp_to_str comp_to_canon name_from_str_f comp_from_str name_hash_input comp_hash_input comp_hash_header
   comp_pattern_from_str_f name_pattern_from_str_f npat_to_str cpat_to_str npat_cmp cpat_cmp to_full_name
   uri_wfb comp_uri_wfb comp_canon_wfb conventions
   triple_ok pair_ok comp_ok brt_ok rt_ok crt_ok no_panic bytes_eqb
